@@ -34,7 +34,7 @@ use std::{
     iter::{Enumerate, FusedIterator},
     mem::take,
     ops::{Deref, DerefMut},
-    sync::Arc,
+    sync::{Arc, Weak},
 };
 use tokio::sync::{RwLock, RwLockReadGuard, oneshot, watch};
 use tracing::Instrument;
@@ -975,7 +975,10 @@ where
         let inner_task = inner.clone();
 
         // Process change events.
-        let tx_send = tx.clone();
+        // The task owns the relay sender, so that the relay channel is closed and
+        // subscribers of the mirror are notified when the task ends for any reason.
+        let tx_send = Arc::new(tx);
+        let tx = Arc::downgrade(&tx_send);
         exec::spawn(
             async move {
                 loop {
@@ -1025,7 +1028,7 @@ where
 /// A VecDeque that is mirroring an observable VecDeque.
 pub struct MirroredVecDeque<T, Codec = crate::codec::Default> {
     inner: Arc<RwLock<Option<MirroredVecDequeInner<T>>>>,
-    tx: rch::broadcast::Sender<VecDequeEvent<T>, Codec>,
+    tx: Weak<rch::broadcast::Sender<VecDequeEvent<T>, Codec>>,
     changed_rx: watch::Receiver<()>,
     _dropped_tx: oneshot::Sender<()>,
 }
@@ -1104,7 +1107,11 @@ where
     pub async fn subscribe(&self, buffer: usize) -> Result<VecDequeSubscription<T, Codec>, RecvError> {
         let view = self.borrow().await?;
         let initial = view.clone();
-        let events = if view.is_done() { None } else { Some(self.tx.subscribe(buffer)) };
+        let events = if view.is_done() {
+            None
+        } else {
+            Some(self.tx.upgrade().ok_or(RecvError::Closed)?.subscribe(buffer))
+        };
 
         Ok(VecDequeSubscription::new(VecDequeInitialValue::new_value(initial), events))
     }
@@ -1121,7 +1128,11 @@ where
     ) -> Result<VecDequeSubscription<T, Codec>, RecvError> {
         let view = self.borrow().await?;
         let initial = view.clone();
-        let events = if view.is_done() { None } else { Some(self.tx.subscribe(buffer)) };
+        let events = if view.is_done() {
+            None
+        } else {
+            Some(self.tx.upgrade().ok_or(RecvError::Closed)?.subscribe(buffer))
+        };
 
         Ok(VecDequeSubscription::new(
             VecDequeInitialValue::new_incremental(initial, Arc::new(default_on_err)),
